@@ -7,6 +7,7 @@ import (
 	"net"
 	"os"
 	"strings"
+	"sync"
 	"time"
 
 	"github.com/mimecast/dtail/internal/source"
@@ -77,10 +78,18 @@ type c17Params struct {
 	Contact  []int    // indexes into c17Hosts
 	Answer   string   // stdin script
 	TrustAll bool
+	// Via: "" = NewKnownHostsCallback directly; "key" = through the client's InitSSHAuthMethods with an explicit
+	// private key file (-key / DTAIL_SSH_PRIVATE_KEYFILE_PATH); "home" = through InitSSHAuthMethods with the key
+	// found at ~/.ssh/id_rsa (no agent)
+	Via string
 }
 
 func (p c17Params) String() string {
-	return fmt.Sprintf("known_hosts=%v contact=%v answer=%q trustall=%v", p.File, p.Contact, p.Answer, p.TrustAll)
+	s := fmt.Sprintf("known_hosts=%v contact=%v answer=%q trustall=%v", p.File, p.Contact, p.Answer, p.TrustAll)
+	if p.Via != "" {
+		s += " via=InitSSHAuthMethods/" + p.Via
+	}
+	return s
 }
 
 func c17Scenario(p c17Params, idx int) *explore.Scenario {
@@ -91,6 +100,17 @@ func c17Scenario(p c17Params, idx int) *explore.Scenario {
 		content.WriteString(lines[n] + "\n")
 	}
 	path := fmt.Sprintf("%s/c17-%d-known_hosts", Scratch(), idx)
+	home := ""
+	if p.Via != "" {
+		home = fmt.Sprintf("%s/c17-home-%d", Scratch(), idx)
+		os.MkdirAll(home+"/.ssh", 0o700)
+		path = home + "/.ssh/known_hosts"
+		if p.Via == "home" {
+			if b, err := os.ReadFile(c17KeyFile()); err == nil {
+				os.WriteFile(home+"/.ssh/id_rsa", b, 0o600)
+			}
+		}
+	}
 	// the user approves iff the first line that is exactly one of the offered answers is y/yes/a/all
 	// (details = ask again; anything else, including an empty line, is not an answer: ask again)
 	approve := false
@@ -124,10 +144,25 @@ func c17Scenario(p c17Params, idx int) *explore.Scenario {
 				return
 			}
 			throttle := vrt.Make[struct{}]("throttleCh", 4)
-			kh, err := sshclient.NewKnownHostsCallback(path, p.TrustAll, throttle)
-			if err != nil {
-				viol = "NewKnownHostsCallback: " + err.Error()
-				return
+			var kh sshclient.HostKeyCallback
+			if p.Via == "" {
+				kh, err = sshclient.NewKnownHostsCallback(path, p.TrustAll, throttle)
+				if err != nil {
+					viol = "NewKnownHostsCallback: " + err.Error()
+					return
+				}
+			} else {
+				vrt.SetLabel("env:HOME", home)
+				key := ""
+				if p.Via == "key" {
+					key = c17KeyFile()
+				}
+				var methods []ssh.AuthMethod
+				methods, kh = sshclient.InitSSHAuthMethods(nil, nil, p.TrustAll, throttle, key)
+				if len(methods) == 0 {
+					viol = "harness: InitSSHAuthMethods returned no authentication method"
+					return
+				}
 			}
 			ctx, cancel := vcontext.WithCancel(vcontext.Background())
 			vrt.Go("prompter", func() { kh.PromptAddHosts(ctx) })
@@ -188,6 +223,21 @@ func c17Scenario(p c17Params, idx int) *explore.Scenario {
 	}
 	return sc
 }
+
+// c17KeyFile returns the path of a private key file (generated once per process family).
+func c17KeyFile() string {
+	p := Scratch() + "/c17-id_rsa"
+	c17KeyOnce.Do(func() {
+		if _, err := os.Stat(p); err != nil {
+			tmp := fmt.Sprintf("%s.%d", p, os.Getpid())
+			sshclient.GeneratePrivatePublicKeyPairIfNotExists(tmp, 2048)
+			os.Rename(tmp, p)
+		}
+	})
+	return p
+}
+
+var c17KeyOnce sync.Once
 
 func c17FileOracle(before, after string, trusted []c17Host, path string) string {
 	if len(trusted) == 0 {
@@ -267,6 +317,15 @@ func c17ParamSets(tier string) (ps []c17Params) {
 				ps = append(ps, c17Params{File: f, Contact: contact, Answer: ans})
 			}
 			ps = append(ps, c17Params{File: f, Contact: contact, Answer: "", TrustAll: true})
+			if len(f) <= 1 {
+				// the same through the client's real initialisation, with each way of finding the private key
+				for _, via := range []string{"key", "home"} {
+					for _, ans := range []string{"y\n", "n\n"} {
+						ps = append(ps, c17Params{File: f, Contact: contact, Answer: ans, Via: via})
+					}
+					ps = append(ps, c17Params{File: f, Contact: contact, Answer: "", TrustAll: true, Via: via})
+				}
+			}
 		}
 	}
 	return
@@ -277,7 +336,7 @@ func init() {
 		ID:    "C17",
 		Level: "model_checking",
 		Rule: "known-hosts files = all sequences of <=2 (quick) / <=3 (thorough) lines over 10 line kinds (entry for A with the right key, with a changed key, entry for B, hashed entry, multi-host entry, IP entry, comment, blank, @revoked line, unrelated host); " +
-			"contacted servers {A}, {B}, {A,B} with their current keys; answers y / n / a / d+y / garbage+n / yes / no / empty line+n / 'ye'+n / 'Y'+no / blank+n / 'nope'+n, and trust-all; the real Wrap() callbacks run as goroutines against the real PromptAddHosts loop (2 s batching timer in virtual time, scripted stdin), " +
+			"contacted servers {A}, {B}, {A,B} with their current keys; the callback obtained directly and (files of <=1 line) through the client's InitSSHAuthMethods with an explicit private key file and with ~/.ssh/id_rsa; answers y / n / a / d+y / garbage+n / yes / no / empty line+n / 'ye'+n / 'Y'+no / blank+n / 'nope'+n, and trust-all; the real Wrap() callbacks run as goroutines against the real PromptAddHosts loop (2 s batching timer in virtual time, scripted stdin), " +
 			"all schedules with <=1 deviation; oracle: proceed <=> x/crypto knownhosts accepts the key OR the user approved OR trust-all; a refused host is reported untrusted; the file afterwards accepts every newly trusted host, keeps every unrelated old line byte-identical " +
 			"and in order, adds nothing else, and is unchanged when nobody was newly trusted",
 		Assumptions: []string{
